@@ -635,6 +635,25 @@ func (m *Machine) model(fn *ssa.Function, args []Value, res ssa.Value) *modelRes
 		ctx := &IfaceV{Dyn: modelObjT, V: &ModelV{Kind: "ctx", Ch: ch}}
 		return ret(TupleV{ctx, &FuncV{Builtin: "cancel", Data: cv}})
 
+	// ---------------- sync/atomic typed integers: plain cell operations; in a
+	// goroutine the call is a visible step of its own (bmc hooks), so the
+	// read-modify-write below is atomic and interleaves with everything else
+	case "(*sync/atomic.Int64).Store", "(*sync/atomic.Int32).Store", "(*sync/atomic.Uint64).Store", "(*sync/atomic.Uint32).Store",
+		"(*sync/atomic.Int64).Load", "(*sync/atomic.Int32).Load", "(*sync/atomic.Uint64).Load", "(*sync/atomic.Uint32).Load",
+		"(*sync/atomic.Int64).Add", "(*sync/atomic.Int32).Add", "(*sync/atomic.Uint64).Add", "(*sync/atomic.Uint32).Add":
+		cell := atomicCell(o, args[0])
+		switch o.Name() {
+		case "Store":
+			m.store(cell, args[1])
+			return ret(nil)
+		case "Load":
+			return ret(m.load(cell))
+		default:
+			nv := f.Add(m.load(cell).(*term.T), args[1].(*term.T))
+			m.store(cell, nv)
+			return ret(nv)
+		}
+
 	// ---------------- sync
 	case "(*sync.WaitGroup).Add", "(*sync.WaitGroup).Done", "(*sync.WaitGroup).Wait", "(*sync.WaitGroup).Go":
 		if m.bmcHooks == nil {
@@ -648,6 +667,33 @@ func (m *Machine) model(fn *ssa.Function, args []Value, res ssa.Value) *modelRes
 		return m.bmcHooks.intrinsic(m, name, fn, args)
 	}
 	return nil
+}
+
+// atomicCell is the address of the value field of a sync/atomic typed integer.
+func atomicCell(fn *ssa.Function, recv Value) *PtrV {
+	p, ok := recv.(*PtrV)
+	if !ok || p.IsNil() {
+		unsupported("sync/atomic receiver is not a plain pointer")
+	}
+	pt, ok := under(fn.Signature.Recv().Type()).(*types.Pointer)
+	if !ok {
+		unsupported("sync/atomic receiver type")
+	}
+	st, ok := under(pt.Elem()).(*types.Struct)
+	if !ok {
+		unsupported("sync/atomic receiver type")
+	}
+	for i := 0; i < st.NumFields(); i++ {
+		if st.Field(i).Name() == "v" {
+			return p.sub(i)
+		}
+	}
+	unsupported("sync/atomic value field not found")
+	return nil
+}
+
+func isAtomicModel(name string) bool {
+	return strings.HasPrefix(name, "(*sync/atomic.Int") || strings.HasPrefix(name, "(*sync/atomic.Uint")
 }
 
 func (m *Machine) constF(v Value) float64 {
